@@ -11,13 +11,25 @@ def big_ops(n_sites=320, per_site=4):
     sites = [b"s:http|h:com|h:s%03d|" % ((i * 7919 + 13) % n_sites) for i in range(n_sites)]
     names = [b"p:a|", b"p:b|", b"p:c|p:d|", b"p:e|"][:per_site]
     for i, s in enumerate(sites):
-        ops.append(("pages", [s + n for n in names], i % 2 == 0))
+        # a varying number of extra pages per site, so that the block layout is not periodic (slot / modulo artefacts need
+        # irregular distances between related nodes)
+        extra = [s + b"p:x%d|" % j for j in range((i * 5 + 1) % 4)]
+        ops.append(("pages", [s + n for n in names] + extra, i % 2 == 0))
+        if extra:
+            ops.append(("links", [(extra[0], s + names[0])]))
     for start in range(0, n_sites, 40):
         pairs = []
         for i in range(start, min(start + 40, n_sites)):
             s, nxt, far = sites[i], sites[(i + 1) % n_sites], sites[(i * 7 + 3) % n_sites]
             pairs += [(s + names[0], nxt + names[0]), (s + names[0], s + names[1]), (s + names[1], far + names[-1]),
                       (s + names[0], nxt + names[0]), (s + names[-1], s + names[-1])]
+        ops.append(("links", pairs))
+    # a few popular targets cited from everywhere (the same target is resolved again and again along the traversal)
+    popular = [sites[k] + names[0] for k in range(min(6, n_sites))]
+    for start in range(0, n_sites, 60):
+        pairs = []
+        for i in range(start, min(start + 60, n_sites)):
+            pairs += [(sites[i] + names[-1], popular[(i + j) % len(popular)]) for j in range(3)]
         ops.append(("links", pairs))
     # a page outside every webentity, linked both ways, and a nested webentity
     ops.append(("links", [(b"x:nowhere|p:q|", sites[0] + names[0]), (sites[1] + names[0], b"x:nowhere|p:q|")]))
@@ -28,6 +40,7 @@ def big_ops(n_sites=320, per_site=4):
 def build(prop, ctx, n_sites=320, per_site=4, backend="memory"):
     """a Case holding the big index; the ledger has followed every request; no oracle has run yet"""
     case = Case(prop, ctx, Config(backend=backend, default_rule="domain"), None)
+    case.minimize = False      # hundreds of requests on a big index: a violation is replayed by re-running the probe
     try:
         for op in big_ops(n_sites, per_site):
             out = case.idx.apply(op)
